@@ -42,6 +42,9 @@ Oracle decisions
     two-byte forms. EUC-JP single-shift sequences (half-width kana 8E xx: 2 bytes 1 column; JIS X 0212
     8F xx xx: 3 bytes) are outside what util.set_encoding documents ("JISX 0208 only"); they are counted
     in C11/wide-codec-sweep's notes, not judged.
+  * apply_target_encoding: what stands in for a character the target encoding lacks is not fixed by the
+    statement; urwid writes one "?" per screen column (util._replace_keep_width). Any run of "?" tagged
+    None is accepted there and its length only noted (the first oracle demanded the codec's single "?").
   * ill-formed UTF-8: the statement does not say how many characters an ill-formed byte run is, so
     `functions-agree` imposes no segmentation: every offset returned by the offset search must be a
     boundary of the move_next_char chain, move_prev_char must undo move_next_char, the search's column
@@ -723,19 +726,34 @@ ATE_ALPHA = ("a", "\xe9", "中", "─", "│", "◆", "\xa3", "π", " ")
 
 
 def one_ate(enc, codec, s):
-    """(ok, detail) for apply_target_encoding(s) under the encoding already set"""
+    """(ok, detail) for apply_target_encoding(s) under the encoding already set.
+
+    Oracle correction (triage C11): the reference used to be the codec's errors="replace" form, i.e. exactly
+    one "?" for each character the target encoding lacks. The statement fixes only the DEC graphics bytes,
+    their charset runs and the run-length total; urwid writes one "?" per screen column of such a character
+    (util._replace_keep_width: "??" for U+4E2D under latin-1/ascii/koi8-r) so the encoded text keeps the
+    layout's width. The stand-in is now any run of "?" bytes tagged None (spec.match_target_encoding); how
+    its length compares with the column width is counted in the notes, not judged. Everything the statement
+    does say -- DEC byte + "0" run, encodable characters = their encoding in None runs, well-formed runs,
+    total = encoded length -- is judged as before."""
     dec = str_util.get_byte_encoding() != "utf8"
     d = {"encoding": enc, "codec": codec, "text": tx(s), "fn": "apply_target_encoding"}
+    segs = None
     if isinstance(s, bytes):
-        want_b, want_cs = s, [None] * len(s)
+        want_desc = [[s.hex(), None]]
     else:
-        want_b, want_cs = R.ref_target_encoding(s, codec, dec)
+        segs = R.ref_target_segments(s, codec, dec)
+        want_desc = [['"?"*' if b is None else b.hex(), tag] for b, tag in segs]
     try:
         got_b, got_cs = util.apply_target_encoding(s)
     except Exception as e:  # noqa: BLE001
         return False, d | {"raised": type(e).__name__, "why": f"raised {type(e).__name__}: {e}"[:300], "cat": "raised"}
-    d |= {"got": [got_b.hex(), [list(r) for r in got_cs]], "want": [want_b.hex(), want_cs]}
-    if got_b != want_b:
+    d |= {"got": [got_b.hex(), [list(r) for r in got_cs]], "want": want_desc}
+    if segs is None:
+        want_cs, repl = ([None] * len(s), 0) if got_b == s else (None, None)
+    else:
+        want_cs, repl = R.match_target_encoding(segs, got_b)
+    if want_cs is None:
         return False, d | {"why": "encoded bytes: each DEC graphics character must become its alternate-charset byte, every other character its encoding"}
     if any((not isinstance(r, tuple)) or len(r) != 2 or r[1] <= 0 or r[0] not in (None, escape.DEC_TAG) for r in got_cs):
         return False, d | {"why": "charset runs must be (None | '0', positive length)"}
@@ -743,6 +761,10 @@ def one_ate(enc, codec, s):
         return False, d | {"why": "total run length differs from the encoded length"}
     if [tag for tag, run in got_cs for _ in range(run)] != want_cs:
         return False, d | {"why": "charset run does not match the DEC graphics bytes"}
+    if segs is not None and any(b is None for b, _tag in segs):
+        wt = _wt()
+        cols = sum(wt[ord(ch)] for ch, (b, _tag) in zip(s, segs) if b is None)
+        d["replacement"] = "one '?' per screen column" if repl == cols else f"{repl} '?' for {cols} column(s)"
     return True, d
 
 
@@ -760,6 +782,10 @@ def check_ate(K, maxlen):
             key = (enc, s)
             if ok:
                 chk.passed(key, 1, {"encoding": enc, "text": repr(s)})
+                if "replacement" in d:  # observation only: the statement does not fix the stand-in's length
+                    n = chk.notes.setdefault("texts with a character the target encoding lacks: stand-in is", {})
+                    k = d["replacement"] if d["replacement"].startswith("one") else "not one '?' per screen column"
+                    n[k] = n.get(k, 0) + 1
             else:
                 chk.fail(key, d)
 
